@@ -3,7 +3,7 @@
    from the PlantUML, with the flag "indirect arrows are drawn" of that run. *)
 From Coq Require Import List NArith Bool.
 Import ListNotations.
-Require Import Verif.Ints.IntsModel Verif.Base.Harness.
+Require Import Verif.Ints.IntsModel Verif.Ints.Views Verif.Base.Harness.
 Local Open Scope N_scope.
 
 Definition arrow_eqb (a b:arrow) : bool :=
@@ -25,4 +25,26 @@ Definition c14_ok (c:c14_case) : bool :=
     && forallb (fun v => match r with
                          | Ok s => list_eqb arrow_eqb (plain_arrows (seeds m listed ex true) (fst v) (deps s)) (snd v)
                          | _ => false end) views
+  end.
+
+(* Several views of one project through the real GenerateIntegrations: module, command-level excludes, and per
+   view (in endpoint-name order) its own (listed, excludes, pass-through) with the arrows parsed from ITS diagram
+   (None = an EPA view or a view the harness could not use: judged by the Go oracle only). *)
+Definition c14m_case := (module * list id * list (view * option (bool * list arrow)))%type.
+
+Fixpoint number {A} (k:N) (l:list A) : list (N * A) :=
+  match l with [] => [] | a :: r => (k, a) :: number (k+1) r end.
+
+Definition c14m_ok (c:c14m_case) : bool :=
+  match c with (m, cli, vs) =>
+    let rs := gen_views m cli (number 0 (map fst vs)) (fuel_bound m) in
+    Nat.eqb (List.length rs) (List.length vs) &&
+    forallb (fun p =>
+      match p with
+      | ((_, (eff, r)), ((listed, _, _), Some (di, ar))) =>
+          match r with
+          | Ok s => list_eqb arrow_eqb (plain_arrows (seeds m listed eff true) di (deps s)) ar
+          | _ => false end
+      | (_, (_, None)) => true
+      end) (combine rs vs)
   end.
